@@ -204,8 +204,46 @@ def ct_leg(only=None):
     return res, stray
 
 
+def _build_parts(src, out_name, extra_flags=(), repo=None, std_flags=None):
+    """lib.build_harness replacement: harness/c02.cpp as five objects (-DC02_PART=0..4) compiled in parallel, then linked"""
+    import concurrent.futures as cf
+    repo = repo or lib.REPO
+    os.makedirs(lib.BUILD, exist_ok=True)
+    out = os.path.join(lib.BUILD, out_name)
+    base = [lib.CXX] + (std_flags if std_flags is not None else lib.CXXFLAGS) + list(extra_flags) + \
+        ["-I", os.path.join(repo, "include"), "-I", os.path.join(lib.VERIF, "harness")]
+    objs = [os.path.join(lib.BUILD, "%s_part%d_%d.o" % (out_name, k, os.getpid())) for k in range(5)]
+
+    def cc(k):
+        return lib.sh(base + ["-DC02_PART=%d" % k, "-c", os.path.join(lib.VERIF, src), "-o", objs[k]], timeout=1800)
+    try:
+        with cf.ThreadPoolExecutor(max_workers=5) as ex:
+            for rc, o, e in ex.map(cc, range(5)):
+                if rc != 0:
+                    return None, (o + e)
+        rc, o, e = lib.sh([lib.CXX, "-fsanitize=address,undefined"] + objs + ["-o", out], timeout=600)
+        if rc != 0:
+            return None, (o + e)
+        return out, ""
+    finally:
+        for f in objs:
+            if os.path.exists(f):
+                os.unlink(f)
+
+
+def _standard(mod, ctx, replay):
+    import __main__ as chk
+    if not hasattr(chk, "standard"):
+        import check as chk
+    orig = lib.build_harness
+    lib.build_harness = _build_parts
+    try:
+        return chk.standard(mod, ctx, replay)
+    finally:
+        lib.build_harness = orig
+
+
 def run(ctx, replay=None):
-    import check
     mod = sys.modules[__name__]
     known = lib.load_known(PROP)
     stats_path = os.path.join(lib.BUILD, "c02_stats_%s.txt" % ctx.run_id)
@@ -222,7 +260,7 @@ def run(ctx, replay=None):
             bad = [cid for cid, r in res.items() if not r["ok"]]
             log("replay: %s" % ("FAILS " + ",".join(bad) if bad else "passes"))
             return 1 if bad else 0
-        return check.standard(mod, ctx, replay)
+        return _standard(mod, ctx, replay)
 
     # compile-time leg first: cheap, and its verdicts are independent of the run-time stream
     ct, stray = ct_leg()
@@ -243,7 +281,7 @@ def run(ctx, replay=None):
                        "explanation": "static_assert(%s) in harness/c02_constexpr.cpp: g++ -std=c++20 -fsyntax-only says: %s"
                                       % (r["expr"], r["diagnostic"])}, found=True)
 
-    rc = check.standard(mod, ctx, None)
+    rc = _standard(mod, ctx, None)
 
     # observed-only clauses: counts measured on this run go into the evidence
     calls = allocs = news = 0
